@@ -71,6 +71,13 @@ func responseFor(req ua.Request) ua.Response {
 	case *ua.WriteRequest:
 		res := make([]ua.StatusCode, len(r.NodesToWrite))
 		return &ua.WriteResponse{ResponseHeader: respHeader(h), Results: res, DiagnosticInfos: []*ua.DiagnosticInfo{}}
+	case *ua.ReadRequest:
+		// the answer names the node that was asked for, so that a caller can tell its own response from another's
+		res := []*ua.DataValue{}
+		if len(r.NodesToRead) == 1 && r.NodesToRead[0].NodeID != nil {
+			res = append(res, &ua.DataValue{EncodingMask: ua.DataValueValue, Value: ua.MustVariant(r.NodesToRead[0].NodeID.IntID())})
+		}
+		return &ua.ReadResponse{ResponseHeader: respHeader(h), Results: res, DiagnosticInfos: []*ua.DiagnosticInfo{}}
 	default:
 		return &ua.ReadResponse{ResponseHeader: respHeader(h), Results: []*ua.DataValue{}, DiagnosticInfos: []*ua.DiagnosticInfo{}}
 	}
@@ -207,3 +214,12 @@ func parseTap(tap []vnet.WireEvent) ([]wireChunk, error) {
 }
 
 func fail(x *vrt.Exec) (string, string, string, bool) { return driver.DefaultFail(x) }
+
+// echoedNode returns the node id an echo server's ReadResponse names (0 if none).
+func echoedNode(r ua.Response) uint32 {
+	if rr, ok := r.(*ua.ReadResponse); ok && len(rr.Results) == 1 && rr.Results[0].Value != nil {
+		v, _ := rr.Results[0].Value.Value().(uint32)
+		return v
+	}
+	return 0
+}
